@@ -9,12 +9,19 @@
      depth_ok s e     : the written document nests less than 128 deep (serde_json's recursion limit)
      wire_event s e   : no Some(x) printing as `null` sits in a field that is skipped when None
      exact_event s e  : no Some(x) printing as `null` anywhere (such a value cannot come out of the reader) *)
-From RipV Require Import Base.Prelude Base.Json Base.JsonParse Model.Wire Proofs.WireProofs Gen.EventSchema.
+From RipV Require Import Base.Prelude Base.Json Base.JsonParse Model.Wire Proofs.WireProofs Gen.EventSchema Gen.Sinks.
 
 (* the premise of everything below holds for the schema extracted from the current source *)
 Theorem c03_current_schema_wf : wf_schema gen_schema = true.
 Proof. exact gen_schema_wf. Qed.
 Print Assumptions c03_current_schema_wf.
+
+(* every place where ripd publishes a frame (16 sites in continuities.rs, session.rs, tasks/mod.rs today) hands one and
+   the same unmodified Event to the log append, to the store next to it (sidecar / snapshot buffer) and to the
+   broadcast channel — the premise under which `emit` of Model/Wire.v (c03_views_agree and its corollaries) is what the code does *)
+Theorem c03_current_sinks_same_frame : gen_ok_sinks && wf_sinks gen_sinks = true.
+Proof. exact gen_sinks_ok. Qed.
+Print Assumptions c03_current_sinks_same_frame.
 
 (* serde level (JSON as a tree): reading what the writer wrote yields the canonical form of the frame — every
    field, optional fields absent / present, defaults, aliases, skipped fields, nested helper structs and enums *)
